@@ -50,7 +50,10 @@ Usable(c) == cstate[c] \in {"open", "closing"}          \* from entry until the 
 Born(c) == cstate[c] # "unborn"
 OpenKids(c) == {d \in Ctxs : parent[d] = c /\ cstate[d] \in {"open", "closing"}}
 Rev(s) == [i \in 1..Len(s) |-> s[Len(s) + 1 - i]]
-Ev(c, ts, n, isfac) == [c |-> c, types |-> ts, name |-> n, fac |-> isfac]
+\* desc: the description the event must carry ("d": given to add_resource, "fd": given to add_resource_factory - a generated
+\* resource is announced with its factory's description)
+Ev(c, ts, n, isfac) == [c |-> c, types |-> ts, name |-> n, fac |-> isfac, desc |-> IF isfac THEN "fd" ELSE "d"]
+EvGen(c, ts, n) == [c |-> c, types |-> ts, name |-> n, fac |-> FALSE, desc |-> "fd"]
 
 (* Context.__init__: the child takes a snapshot of the parent's non-generated resources and of its factory table *)
 Snapshot(p) == [k \in Keys |-> IF ~IsNone(res[p][k]) /\ ~res[p][k].gen THEN res[p][k] ELSE NoneR]
@@ -148,7 +151,7 @@ GetO(c, t, n, api, opt) ==
   ELSE IF IsNone(fac[c][k]) THEN o @@ [r |-> IF opt THEN "None" ELSE "ResourceNotFound"]
   ELSE IF api = "sync" /\ fac[c][k].async THEN o @@ [r |-> "AsyncResourceError"]
   ELSE LET f == fac[c][k] IN
-       [o EXCEPT !.ev = <<Ev(c, f.types, f.name, FALSE)>>] @@ [r |-> "gen", v |-> <<"g", c, f.id>>, fid |-> f.id, free |-> FreeKeys(c, f)]
+       [o EXCEPT !.ev = <<EvGen(c, f.types, f.name)>>] @@ [r |-> "gen", v |-> <<"g", c, f.id>>, fid |-> f.id, free |-> FreeKeys(c, f)]
 GetEffect(c, t, n) ==
   IF obs'.r # "gen" THEN UNCHANGED core
   ELSE LET f == fac[c][Key(t, n)]
